@@ -2,10 +2,14 @@ package c14
 
 import (
 	"context"
+	"errors"
 	"fmt"
 	"os"
+	"path/filepath"
+	"strings"
 	"time"
 
+	"github.com/codenotary/immudb/embedded/sql"
 	"github.com/codenotary/immudb/embedded/store"
 	"github.com/codenotary/immudb/pkg/api/protomodel"
 	"github.com/codenotary/immudb/pkg/api/schema"
@@ -14,208 +18,537 @@ import (
 	"verif/harness/vk"
 )
 
-// databaseChecks: pkg/database truncation (catalog copy + TruncateUptoTx) followed by a restart.
-// Direct property checks only (no model case): the SQL catalog and a document collection created
-// BEFORE the cut still load and accept writes; rows/documents/values written at or after the cut
-// read back; transactions at or after the cut read in full.
+// databaseChecks: pkg/database truncation (catalog copy + TruncateUptoTx) followed by a restart,
+// with catalog objects of every kind the catalog copy has to carry (tables with CHECK constraints
+// named and unnamed, NOT NULL, AUTO_INCREMENT, composite primary key, an added column, several
+// secondary and UNIQUE indexes, a view, a sequence, a collection with indexed fields), a file
+// size small enough that the values written by the DDL transactions sit in chunks the truncation
+// deletes (verified: every DDL transaction must have become unreadable, otherwise the round is
+// repeated with more filler), two truncate+restart cycles (the second one has to carry the copy
+// made by the first).  Direct property checks only (no model case): after truncation and after
+// each restart every table/view/collection answers, a satisfying INSERT is accepted and a
+// violating one is refused for the right reason, documents are inserted and found.
 func databaseChecks(r *vk.Run) error {
 	rounds := 2
 	if os.Getenv("VERIF_TIER") == "thorough" {
-		rounds = 8
+		rounds = 6
 	}
 	for k := 0; k < rounds; k++ {
-		if err := databaseRound(r, 1+r.Rng.Intn(3), 512+r.Rng.Intn(3)*256); err != nil {
-			r.Finding(fmt.Sprintf("pkg/database scenario could not be completed: %v", err))
+		maxio := 1 + (k+int(r.Seed))%3
+		fsz := []int{256, 384, 512}[r.Rng.Intn(3)]
+		conclusive := false
+		for attempt := 0; attempt < 3 && !conclusive; attempt++ {
+			var err error
+			conclusive, err = databaseRound(r, maxio, fsz, 4+4*attempt)
+			if err != nil {
+				r.Finding(fmt.Sprintf("pkg/database scenario (maxio=%d fileSize=%d) could not be completed: %v", maxio, fsz, err))
+				conclusive = true
+			}
+		}
+		if !conclusive {
+			return fmt.Errorf("pkg/database round: the DDL values were never deleted by the truncation (maxio=%d fileSize=%d): the round proves nothing", maxio, fsz)
 		}
 	}
 	return nil
 }
 
 func dbOptions(dir string, maxio, fsz int) *database.Options {
-	so := smallOpts().WithMaxTxEntries(64).WithMaxKeyLen(256).WithMaxIOConcurrency(maxio).WithFileSize(fsz).WithVLogCacheSize(0)
+	so := smallOpts().WithMaxTxEntries(64).WithMaxKeyLen(1024).WithMaxIOConcurrency(maxio).WithFileSize(fsz).WithVLogCacheSize(0)
 	return database.DefaultOptions().WithDBRootPath(dir).WithStoreOptions(so)
 }
 
-func databaseRound(r *vk.Run, maxio, fsz int) (err error) {
-	dir, err := os.MkdirTemp("", "vh-c14-db")
+type dbWorld struct {
+	r    *vk.Run
+	ctx  context.Context
+	db   database.DB
+	desc string
+	fsz  int
+
+	rows1, rows2, rows3, docs int // rows written (all after the first cut)
+	fives                     int // rows of table1 with amount = 5
+	kvs                       []dbKV
+	cut                       uint64
+	seqLast                   int64
+	base                      int // primary keys and unique values of this cycle start here (never reused)
+	extraTable                bool
+	dead                      bool // the time budget of the round is used up: no further checks
+	hasView, hasSeq           bool // objects that survive a plain restart (baseline, before any truncation)
+}
+
+type dbKV struct {
+	id  uint64
+	key []byte
+	val []byte
+}
+
+func (w *dbWorld) exec(stmt string) error {
+	_, _, err := w.db.SQLExec(w.ctx, nil, &schema.SQLExecRequest{Sql: stmt})
+	return err
+}
+
+func (w *dbWorld) query(stmt string) ([]*sql.Row, error) {
+	return w.db.SQLQueryAll(w.ctx, nil, &schema.SQLQueryRequest{Sql: stmt})
+}
+
+func rowInt(row *sql.Row) int64 {
+	if len(row.ValuesByPosition) == 0 {
+		return 0
+	}
+	v, _ := row.ValuesByPosition[0].RawValue().(int64)
+	return v
+}
+
+func (w *dbWorld) txID() uint64 {
+	st, err := w.db.CurrentState()
+	if err != nil {
+		return 0
+	}
+	return st.TxId
+}
+
+func (w *dbWorld) bad(phase, format string, a ...any) {
+	if w.dead {
+		return
+	}
+	if w.ctx.Err() != nil {
+		// one report, not one per remaining check
+		w.dead = true
+		w.r.Finding(fmt.Sprintf("%s: %s: the database stopped answering (a call waited until the 120 s budget of the round was used up); first failing check: %s", w.desc, phase, fmt.Sprintf(format, a...)))
+		return
+	}
+	w.r.Finding(fmt.Sprintf("%s: %s: %s", w.desc, phase, fmt.Sprintf(format, a...)))
+}
+
+// refused: the statement must fail, and for the stated reason
+func (w *dbWorld) refused(phase, what, stmt string, reasons ...error) {
+	if w.dead {
+		return
+	}
+	err := w.exec(stmt)
+	if err == nil {
+		w.bad(phase, "%s accepted (constraint lost): %s", what, stmt)
+		return
+	}
+	for _, reason := range reasons {
+		if errors.Is(err, reason) {
+			return
+		}
+	}
+	w.bad(phase, "%s refused for the wrong reason (%v): %s", what, err, stmt)
+}
+
+func (w *dbWorld) set(i int) error {
+	v := vk.RandBytes(w.r.Rng, w.fsz+17)
+	key := []byte(fmt.Sprintf("key_%d", i))
+	hdr, err := w.db.Set(w.ctx, &schema.SetRequest{KVs: []*schema.KeyValue{{Key: key, Value: v}}})
 	if err != nil {
 		return err
 	}
+	w.kvs = append(w.kvs, dbKV{hdr.Id, key, v})
+	return nil
+}
+
+func (w *dbWorld) insertDoc(phase string) {
+	if w.dead {
+		return
+	}
+	w.docs++
+	_, err := w.db.InsertDocuments(w.ctx, "admin", &protomodel.InsertDocumentsRequest{CollectionName: "coll1",
+		Documents: []*structpb.Struct{{Fields: map[string]*structpb.Value{
+			"number":  structpb.NewNumberValue(float64(w.base + w.docs)),
+			"country": structpb.NewStringValue(fmt.Sprintf("c%d", w.base+w.docs)),
+		}}}})
+	if err != nil {
+		w.bad(phase, "InsertDocuments(coll1) fails: %v", err)
+		w.docs--
+	}
+}
+
+// writes: one satisfying INSERT per table (accepted) and one violating INSERT per constraint
+// (refused for the right reason), a document, a sequence value
+func (w *dbWorld) writes(phase string) {
+	if w.dead {
+		return
+	}
+	n := w.base + w.rows1 + 1
+	if err := w.exec(fmt.Sprintf("INSERT INTO table1(name, amount, active) VALUES('n%d', 5, true)", n)); err != nil {
+		w.bad(phase, "satisfying INSERT INTO table1 refused: %v", err)
+	} else {
+		w.rows1++
+		w.fives++
+	}
+	if err := w.exec(fmt.Sprintf("INSERT INTO table1(name, amount, active, surname) VALUES('m%d', 7, false, 's')", n)); err != nil {
+		w.bad(phase, "satisfying INSERT INTO table1 (added column) refused: %v", err)
+	} else {
+		w.rows1++
+	}
+	w.refused(phase, "CHECK (amount >= 0) violation", fmt.Sprintf("INSERT INTO table1(name, amount, active) VALUES('x%d', -1, true)", n), sql.ErrCheckConstraintViolation)
+	w.refused(phase, "NOT NULL (name) violation", "INSERT INTO table1(amount, active) VALUES(1, true)", sql.ErrNotNullableColumnCannotBeNull)
+	if w.rows1 > 0 {
+		w.refused(phase, "UNIQUE INDEX (name) violation", fmt.Sprintf("INSERT INTO table1(name, amount, active) VALUES('n%d', 3, true)", w.base+1), store.ErrKeyAlreadyExists)
+	}
+
+	k := w.base + w.rows2 + 1
+	if err := w.exec(fmt.Sprintf("INSERT INTO table2(id, code, qty) VALUES(%d, 'c%d', 5)", k, k)); err != nil {
+		w.bad(phase, "satisfying INSERT INTO table2 refused: %v", err)
+	} else {
+		w.rows2++
+	}
+	w.refused(phase, "CONSTRAINT qty_range violation (qty = 0)", fmt.Sprintf("INSERT INTO table2(id, code, qty) VALUES(%d, 'z%d', 0)", 1000+k, k), sql.ErrCheckConstraintViolation)
+	w.refused(phase, "CONSTRAINT qty_range violation (qty = 1000)", fmt.Sprintf("INSERT INTO table2(id, code, qty) VALUES(%d, 'y%d', 1000)", 2000+k, k), sql.ErrCheckConstraintViolation)
+	w.refused(phase, "NOT NULL (code) violation", fmt.Sprintf("INSERT INTO table2(id, qty) VALUES(%d, 5)", 3000+k), sql.ErrNotNullableColumnCannotBeNull)
+	if w.rows2 > 0 {
+		w.refused(phase, "PRIMARY KEY violation", fmt.Sprintf("INSERT INTO table2(id, code, qty) VALUES(%d, 'other', 5)", w.base+1), store.ErrKeyAlreadyExists)
+		w.refused(phase, "UNIQUE INDEX (code) violation", fmt.Sprintf("INSERT INTO table2(id, code, qty) VALUES(%d, 'c%d', 5)", 4000+k, w.base+1), store.ErrKeyAlreadyExists)
+	}
+
+	j := w.base + w.rows3 + 1
+	if err := w.exec(fmt.Sprintf("INSERT INTO table3(a, b, c) VALUES(%d, 'b', %d)", j, j)); err != nil {
+		w.bad(phase, "satisfying INSERT INTO table3 refused: %v", err)
+	} else {
+		w.rows3++
+	}
+	if w.rows3 > 0 {
+		w.refused(phase, "composite PRIMARY KEY violation", fmt.Sprintf("INSERT INTO table3(a, b, c) VALUES(%d, 'b', 9)", w.base+1), store.ErrKeyAlreadyExists)
+	}
+	w.insertDoc(phase)
+
+	if !w.hasSeq {
+		return
+	}
+	if res, err := w.query("SELECT NEXTVAL('seq1')"); err != nil && strings.Contains(err.Error(), "sequence does not exist") {
+		w.bad(phase, "sequence seq1, which survives a plain restart, is lost after truncation and restart (the catalog copy does not carry the CTL.SEQUENCE entries): %v", err)
+		w.hasSeq = false
+	} else if err != nil || len(res) != 1 {
+		w.bad(phase, "SELECT NEXTVAL('seq1') fails: %v", err)
+	} else {
+		v := rowInt(res[0])
+		if v <= w.seqLast {
+			w.bad(phase, "sequence seq1 went back: %d after %d", v, w.seqLast)
+		}
+		w.seqLast = v
+	}
+}
+
+// wedge (last, because it can leave the database unusable): a row deleted BEFORE the cut is
+// inserted again AFTER truncation.  The statement is accepted; every secondary index of the table
+// must then still answer within 10 s.
+func (w *dbWorld) wedge() {
+	if w.dead {
+		return
+	}
+	ctx, cancel := context.WithTimeout(w.ctx, 10*time.Second)
+	defer cancel()
+	stmt := "INSERT INTO table2(id, code, qty) VALUES(1, 'again', 5)"
+	if _, _, err := w.db.SQLExec(ctx, nil, &schema.SQLExecRequest{Sql: stmt}); err != nil {
+		if ctx.Err() == nil {
+			return // refused cleanly: fine
+		}
+		w.bad("re-insert", "%s does not return within 10s: %v", stmt, err)
+		return
+	}
+	q := "SELECT id FROM table2 USE INDEX ON (code) WHERE code = 'again'"
+	res, err := w.db.SQLQueryAll(ctx, nil, &schema.SQLQueryRequest{Sql: q})
+	if err != nil && ctx.Err() != nil {
+		w.bad("re-insert", "after re-inserting a primary key that was deleted before the cut (%s, accepted) the secondary index of table2 never catches up: %s does not return within 10s (indexer fails with EOF reading the truncated previous entry)", stmt, q)
+		w.dead = true
+		return
+	}
+	if err != nil || len(res) != 1 {
+		w.bad("re-insert", "%s gives %d rows (err %v), expected 1", q, len(res), err)
+	}
+}
+
+func (w *dbWorld) count(phase, stmt string, want int) {
+	if w.dead {
+		return
+	}
+	res, err := w.query(stmt)
+	if err != nil {
+		w.bad(phase, "%s fails: %v", stmt, err)
+		return
+	}
+	if len(res) != want {
+		w.bad(phase, "%s gives %d rows, expected %d", stmt, len(res), want)
+	}
+}
+
+// reads: every table, index, view and the collection answer with what was written
+func (w *dbWorld) reads(phase string) {
+	if w.dead {
+		return
+	}
+	w.count(phase, "SELECT * FROM table1", w.rows1)
+	w.count(phase, "SELECT id, name FROM table1 USE INDEX ON (amount) WHERE amount = 5", w.fives)
+	w.count(phase, "SELECT id FROM table1 USE INDEX ON (amount, active) WHERE amount = 5 AND active = true", w.fives)
+	w.count(phase, fmt.Sprintf("SELECT id FROM table1 USE INDEX ON (name) WHERE name = 'n%d'", w.base+1), minInt(w.rows1, 1))
+	w.count(phase, "SELECT * FROM table2", w.rows2)
+	w.count(phase, fmt.Sprintf("SELECT id FROM table2 USE INDEX ON (code) WHERE code = 'c%d'", w.base+1), minInt(w.rows2, 1))
+	w.count(phase, "SELECT * FROM table3", w.rows3)
+	if w.hasView {
+		w.count(phase, "SELECT * FROM view1", w.fives)
+	}
+	if w.extraTable {
+		w.count(phase, "SELECT * FROM table9", 0)
+	}
+	// AUTO_INCREMENT: ids are distinct and positive
+	if res, err := w.query("SELECT id FROM table1"); err == nil {
+		seen := map[int64]bool{}
+		for _, row := range res {
+			id := rowInt(row)
+			if id <= 0 || seen[id] {
+				w.bad(phase, "AUTO_INCREMENT id %d of table1 is not positive/unique", id)
+			}
+			seen[id] = true
+		}
+	}
+	cr, err := w.db.CountDocuments(w.ctx, &protomodel.CountDocumentsRequest{Query: &protomodel.Query{CollectionName: "coll1"}})
+	if err != nil || int(cr.GetCount()) != w.docs {
+		w.bad(phase, "CountDocuments(coll1) = %v (err %v), expected %d", cr.GetCount(), err, w.docs)
+	}
+	if w.docs > 0 {
+		rd, err := w.db.SearchDocuments(w.ctx, &protomodel.Query{CollectionName: "coll1",
+			Expressions: []*protomodel.QueryExpression{{FieldComparisons: []*protomodel.FieldComparison{
+				{Field: "number", Operator: protomodel.ComparisonOperator_EQ, Value: structpb.NewNumberValue(float64(w.base + 1))}}}}}, 0)
+		if err != nil {
+			w.bad(phase, "SearchDocuments(coll1, number = 1) fails: %v", err)
+		} else {
+			rev, err := rd.Read(w.ctx)
+			if err != nil || rev.GetDocument().GetFields()["country"].GetStringValue() != fmt.Sprintf("c%d", w.base+1) {
+				w.bad(phase, "SearchDocuments(coll1, number = 1) does not find the document (err %v)", err)
+			}
+			rd.Close()
+		}
+	}
+	for _, kv := range w.kvs {
+		if kv.id < w.cut {
+			continue
+		}
+		e, err := w.db.Get(w.ctx, &schema.KeyRequest{Key: kv.key})
+		if err != nil || string(e.Value) != string(kv.val) {
+			w.bad(phase, "Get(%s) written by tx %d >= cut %d fails or differs (err %v)", kv.key, kv.id, w.cut, err)
+		}
+	}
+	first := w.cut
+	if first == 0 {
+		first = 1
+	}
+	for id := first; id <= w.txID(); id++ {
+		if _, err := w.readTx(id); err != nil {
+			w.bad(phase, "TxByID(%d) with values fails although %d >= cut %d: %v", id, id, w.cut, err)
+		}
+	}
+}
+
+func (w *dbWorld) readTx(id uint64) (*schema.Tx, error) {
+	return w.db.TxByID(w.ctx, &schema.TxRequest{Tx: id, EntriesSpec: &schema.EntriesSpec{
+		KvEntriesSpec:  &schema.EntryTypeSpec{Action: schema.EntryTypeAction_RAW_VALUE},
+		SqlEntriesSpec: &schema.EntryTypeSpec{Action: schema.EntryTypeAction_RAW_VALUE},
+		ZEntriesSpec:   &schema.EntryTypeSpec{Action: schema.EntryTypeAction_RAW_VALUE}}})
+}
+
+// chunkRange lists, per value log, the lowest and the highest chunk file index (-1: no file)
+func chunkRange(dir string, maxio int) (lo, hi []int) {
+	for i := 0; i < maxio; i++ {
+		l, h := -1, -1
+		ents, _ := os.ReadDir(filepath.Join(dir, "db1", fmt.Sprintf("val_%d", i)))
+		for _, e := range ents {
+			var k int
+			if _, err := fmt.Sscanf(e.Name(), "%08d.val", &k); err == nil {
+				if l < 0 || k < l {
+					l = k
+				}
+				if k > h {
+					h = k
+				}
+			}
+		}
+		lo, hi = append(lo, l), append(hi, h)
+	}
+	return
+}
+
+func minInt(a, b int) int {
+	if a < b {
+		return a
+	}
+	return b
+}
+
+// databaseRound returns conclusive = false when the truncation left a DDL transaction readable
+// (the catalog copy was then not needed and the round shows nothing)
+func databaseRound(r *vk.Run, maxio, fsz, fillPerLog int) (conclusive bool, err error) {
+	dir, err := os.MkdirTemp("", "vh-c14-db")
+	if err != nil {
+		return true, err
+	}
 	defer os.RemoveAll(dir)
-	desc := fmt.Sprintf("pkg/database maxio=%d fileSize=%d", maxio, fsz)
+	// every call is bounded: a database whose indexer cannot read a value it needs waits forever
+	ctx, cancel := context.WithTimeout(context.Background(), 120*time.Second)
+	defer cancel()
+	w := &dbWorld{r: r, ctx: ctx, fsz: fsz, desc: fmt.Sprintf("pkg/database maxio=%d fileSize=%d", maxio, fsz)}
 	defer func() {
 		if rec := recover(); rec != nil {
-			r.Finding(fmt.Sprintf("%s: panic during truncation scenario: %v", desc, rec))
-			err = nil
+			r.Finding(fmt.Sprintf("%s: panic during the truncation scenario: %v", w.desc, rec))
+			conclusive, err = true, nil
 		}
 	}()
-	// every call is bounded: a database whose indexer cannot read a value it needs waits forever
-	ctx, cancel := context.WithTimeout(context.Background(), 90*time.Second)
-	defer cancel()
-	db, err := database.NewDB("db1", nil, dbOptions(dir, maxio, fsz), quiet)
+	w.db, err = database.NewDB("db1", nil, dbOptions(dir, maxio, fsz), quiet)
 	if err != nil {
-		return fmt.Errorf("NewDB: %v", err)
+		return true, fmt.Errorf("NewDB: %v", err)
 	}
 	closed := false
 	defer func() {
 		if !closed {
-			db.Close()
+			w.db.Close()
 		}
 	}()
-	exec := func(stmt string) error {
-		_, _, err := db.SQLExec(ctx, nil, &schema.SQLExecRequest{Sql: stmt})
-		return err
+
+	findings0 := len(r.Findings)
+	// ---- catalog objects of every kind, all created BEFORE the cut
+	var ddlTxs []uint64 // recorded for the replay text only
+	ddl := []string{
+		"CREATE TABLE table1 (id INTEGER AUTO_INCREMENT, name VARCHAR[50] NOT NULL, amount INTEGER, active BOOLEAN, CHECK (amount >= 0), PRIMARY KEY id)",
+		"CREATE UNIQUE INDEX ON table1 (name)",
+		"CREATE INDEX ON table1 (amount)",
+		"CREATE INDEX ON table1 (amount, active)",
+		"CREATE TABLE table2 (id INTEGER, code VARCHAR[10] NOT NULL, qty INTEGER NOT NULL, CONSTRAINT qty_range CHECK (qty > 0 AND qty < 1000), PRIMARY KEY id)",
+		"CREATE UNIQUE INDEX ON table2 (code)",
+		"CREATE TABLE table3 (a INTEGER, b VARCHAR[8], c INTEGER, PRIMARY KEY (a, b))",
+		"ALTER TABLE table1 ADD COLUMN surname VARCHAR[30]",
+		"CREATE VIEW view1 AS SELECT id, name FROM table1 WHERE amount = 5",
+		"CREATE SEQUENCE seq1",
 	}
-	count := func(stmt string) (int, error) {
-		res, err := db.SQLQueryAll(ctx, nil, &schema.SQLQueryRequest{Sql: stmt})
+	for _, stmt := range ddl {
+		if err := w.exec(stmt); err != nil {
+			return true, fmt.Errorf("%s: %v", stmt, err)
+		}
+		ddlTxs = append(ddlTxs, w.txID())
+	}
+	if _, err := w.db.CreateCollection(ctx, "admin", &protomodel.CreateCollectionRequest{Name: "coll1",
+		Fields:  []*protomodel.Field{{Name: "number", Type: protomodel.FieldType_INTEGER}, {Name: "country", Type: protomodel.FieldType_STRING}},
+		Indexes: []*protomodel.Index{{Fields: []string{"number"}}, {Fields: []string{"country"}, IsUnique: true}}}); err != nil {
+		return true, fmt.Errorf("create collection: %v", err)
+	}
+	ddlTxs = append(ddlTxs, w.txID())
+
+	// ---- baseline: what a plain restart (no truncation yet) keeps.  Truncation + restart must not
+	// lose anything a restart alone keeps; objects a restart alone loses are not asked for later.
+	restart := func(phase string) bool {
+		if err := w.db.Close(); err != nil {
+			w.bad(phase, "database does not close: %v", err)
+			closed = true
+			return false
+		}
+		closed = true
+		w.db, err = database.OpenDB("db1", nil, dbOptions(dir, maxio, fsz), quiet)
 		if err != nil {
-			return 0, err
+			w.bad(phase, "database does not open: %v", err)
+			return false
 		}
-		return len(res), nil
+		closed = false
+		return true
 	}
-	// catalog and collection created BEFORE the cut
-	if err := exec("CREATE TABLE table1 (id INTEGER AUTO_INCREMENT, name VARCHAR[50], amount INTEGER, PRIMARY KEY id)"); err != nil {
-		return fmt.Errorf("create table: %v", err)
+	if !restart("baseline restart") {
+		return true, nil
 	}
-	if err := exec("CREATE UNIQUE INDEX ON table1 (name)"); err != nil {
-		return fmt.Errorf("create index: %v", err)
+	if _, err := w.query("SELECT * FROM view1"); err == nil {
+		w.hasView = true
 	}
-	if _, err := db.CreateCollection(ctx, "admin", &protomodel.CreateCollectionRequest{Name: "coll1",
-		Fields: []*protomodel.Field{{Name: "number", Type: protomodel.FieldType_INTEGER}, {Name: "country", Type: protomodel.FieldType_STRING}}}); err != nil {
-		return fmt.Errorf("create collection: %v", err)
+	if res, err := w.query("SELECT NEXTVAL('seq1')"); err == nil && len(res) == 1 {
+		w.hasSeq = true
+		w.seqLast = rowInt(res[0])
 	}
-	// key-value transactions with values around the file size (chunks rotate)
-	type kvw struct {
-		id  uint64
-		key []byte
-		val []byte
+	w.reads("baseline restart")
+	if w.dead || len(w.r.Findings) > findings0 {
+		// the baseline itself fails: nothing to learn about truncation from this round
+		return true, nil
 	}
-	var kvs []kvw
-	set := func(i int) error {
-		n := r.Rng.Intn(fsz + fsz/2)
-		v := vk.RandBytes(r.Rng, n)
-		key := []byte(fmt.Sprintf("key_%d", i))
-		hdr, err := db.Set(ctx, &schema.SetRequest{KVs: []*schema.KeyValue{{Key: key, Value: v}}})
-		if err != nil {
-			return err
-		}
-		kvs = append(kvs, kvw{hdr.Id, key, v})
-		return nil
-	}
-	nBefore := 4 + r.Rng.Intn(5)
-	for i := 0; i < nBefore; i++ {
-		if err := set(i); err != nil {
-			return fmt.Errorf("set: %v", err)
-		}
-	}
-	cut := kvs[r.Rng.Intn(len(kvs))].id
-	desc += fmt.Sprintf(" cut=%d", cut)
-	rows, docs := 0, 0
-	insertRow := func() error {
-		rows++
-		return exec(fmt.Sprintf("INSERT INTO table1(name, amount) VALUES('n%d', %d)", rows, rows))
-	}
-	insertDoc := func() error {
-		docs++
-		_, err := db.InsertDocuments(ctx, "admin", &protomodel.InsertDocumentsRequest{CollectionName: "coll1",
-			Documents: []*structpb.Struct{{Fields: map[string]*structpb.Value{
-				"number":  {Kind: &structpb.Value_NumberValue{NumberValue: float64(docs)}},
-				"country": {Kind: &structpb.Value_StringValue{StringValue: fmt.Sprintf("c%d", docs)}},
-			}}}})
-		return err
-	}
-	// everything below is written after the cut transaction
-	if err := exec("ALTER TABLE table1 ADD COLUMN surname VARCHAR"); err != nil {
-		return fmt.Errorf("alter table: %v", err)
-	}
-	for i := 0; i < 3; i++ {
-		if err := insertRow(); err != nil {
-			return fmt.Errorf("insert: %v", err)
-		}
-		if err := insertDoc(); err != nil {
-			return fmt.Errorf("insert document: %v", err)
-		}
-		if err := set(nBefore + i); err != nil {
-			return fmt.Errorf("set: %v", err)
-		}
-	}
-	check := func(phase string) {
-		if n, err := count("SELECT * FROM table1"); err != nil || n != rows {
-			r.Finding(fmt.Sprintf("%s: %s: SELECT * FROM table1 gives %d rows (err %v), expected %d", desc, phase, n, err, rows))
-		}
-		cr, err := db.CountDocuments(ctx, &protomodel.CountDocumentsRequest{Query: &protomodel.Query{CollectionName: "coll1"}})
-		if err != nil || int(cr.GetCount()) != docs {
-			r.Finding(fmt.Sprintf("%s: %s: CountDocuments(coll1) = %v (err %v), expected %d", desc, phase, cr.GetCount(), err, docs))
-		}
-		for _, kv := range kvs {
-			if kv.id < cut {
-				continue
+	_, ddlChunks := chunkRange(dir, maxio)
+
+	// ---- one truncate + restart cycle; the filler moves every value log several chunks ahead
+	nkv := 0
+	cycle := func(name string) (bool, error) {
+		for i := 0; i < fillPerLog*maxio; i++ {
+			if err := w.set(nkv); err != nil {
+				return true, fmt.Errorf("set: %v", err)
 			}
-			e, err := db.Get(ctx, &schema.KeyRequest{Key: kv.key})
-			if err != nil || string(e.Value) != string(kv.val) {
-				r.Finding(fmt.Sprintf("%s: %s: Get(%s) written by tx %d >= cut fails or differs (err %v)", desc, phase, kv.key, kv.id, err))
-			}
+			nkv++
 		}
-		st, err := db.CurrentState()
-		if err != nil {
-			r.Finding(fmt.Sprintf("%s: %s: CurrentState: %v", desc, phase, err))
-			return
+		w.cut = w.kvs[len(w.kvs)-1].id
+		w.desc = fmt.Sprintf("pkg/database maxio=%d fileSize=%d cut=%d (%s)", maxio, fsz, w.cut, name)
+		// everything below is written at or after the cut
+		w.writes("before truncation")
+		w.reads("before truncation")
+		before := w.txID()
+		// the truncator runs on data older than the retention period: the indexers have caught up
+		if err := w.db.WaitForIndexingUpto(ctx, before); err != nil {
+			w.bad("before truncation", "indexing does not reach tx %d: %v", before, err)
+			return true, nil
 		}
-		for id := cut; id <= st.TxId; id++ {
-			if _, err := db.TxByID(ctx, &schema.TxRequest{Tx: id, EntriesSpec: &schema.EntriesSpec{
-				KvEntriesSpec:  &schema.EntryTypeSpec{Action: schema.EntryTypeAction_RAW_VALUE},
-				SqlEntriesSpec: &schema.EntryTypeSpec{Action: schema.EntryTypeAction_RAW_VALUE},
-				ZEntriesSpec:   &schema.EntryTypeSpec{Action: schema.EntryTypeAction_RAW_VALUE}}}); err != nil {
-				r.Finding(fmt.Sprintf("%s: %s: TxByID(%d) with values fails although %d >= cut: %v", desc, phase, id, id, err))
+		tr := database.NewVlogTruncator(w.db, quiet)
+		if err := tr.TruncateUptoTx(ctx, w.cut); err != nil {
+			w.bad("truncation", "VlogTruncator.TruncateUptoTx failed: %v", err)
+			return true, nil
+		}
+		if after := w.txID(); after != before+1 {
+			w.bad("truncation", "truncation committed %d transactions (expected the catalog copy only)", after-before)
+		}
+		// the round means something only if the chunks that held the DDL values are gone: in every
+		// value log the lowest chunk file left is above the highest one that existed when the last
+		// DDL statement (or the previous catalog copy) had been written
+		lo, _ := chunkRange(dir, maxio)
+		for i := range lo {
+			if ddlChunks[i] >= 0 && lo[i] <= ddlChunks[i] {
+				if os.Getenv("C14_DEBUG") != "" {
+					fmt.Fprintf(os.Stderr, "value log %d: lowest chunk %d, DDL chunks up to %d; cut %d\n", i, lo[i], ddlChunks[i], w.cut)
+				}
+				return false, nil
 			}
 		}
+		_, ddlChunks = chunkRange(dir, maxio) // the copy just written has to be carried by the next cycle
+		w.reads("after truncation")
+		if err := tr.TruncateUptoTx(ctx, w.cut); err != nil {
+			w.bad("truncation", "second VlogTruncator.TruncateUptoTx failed: %v", err)
+		}
+		w.writes("after truncation")
+		w.reads("after truncation and new writes")
+		if !restart("restart after truncation") {
+			return true, nil
+		}
+		w.reads("after restart")
+		w.writes("after restart")
+		w.reads("after restart and new writes")
+		return true, nil
 	}
-	check("before truncation")
-	before, _ := db.CurrentState()
-	tr := database.NewVlogTruncator(db, quiet)
-	if err := tr.TruncateUptoTx(ctx, cut); err != nil {
-		r.Finding(fmt.Sprintf("%s: VlogTruncator.TruncateUptoTx failed: %v", desc, err))
-		return nil
+	if ok, err := cycle("first cycle"); !ok || err != nil {
+		return ok, err
 	}
-	after, _ := db.CurrentState()
-	if before != nil && after != nil && after.TxId != before.TxId+1 {
-		r.Finding(fmt.Sprintf("%s: truncation committed %d transactions (expected the catalog copy only)", desc, after.TxId-before.TxId))
+	// DDL on the restarted database, then a second cycle that must carry the copied catalog
+	if err := w.exec("CREATE TABLE table9 (id INTEGER, PRIMARY KEY id)"); err != nil {
+		w.bad("after restart", "CREATE TABLE after truncation and restart fails: %v", err)
+	} else {
+		w.extraTable = true
 	}
-	check("after truncation")
-	// the same truncation again, and an older cut: harmless
-	if err := tr.TruncateUptoTx(ctx, cut); err != nil {
-		r.Finding(fmt.Sprintf("%s: second VlogTruncator.TruncateUptoTx failed: %v", desc, err))
+	if err := w.exec("CREATE INDEX ON table3 (c)"); err != nil && !strings.Contains(err.Error(), "already exists") {
+		w.bad("after restart", "CREATE INDEX after truncation and restart fails: %v", err)
 	}
-	check("after second truncation")
-	if err := insertRow(); err != nil {
-		r.Finding(fmt.Sprintf("%s: INSERT after truncation fails: %v", desc, err))
-		rows--
+	// rows written during the first cycle are below the second cut: their values may go, so the
+	// tables are emptied of them first (a DELETE reads keys only)
+	_, ddlChunks = chunkRange(dir, maxio)
+	for _, t := range []string{"table1", "table2", "table3"} {
+		if err := w.exec("DELETE FROM " + t); err != nil {
+			w.bad("after restart", "DELETE FROM %s fails: %v", t, err)
+		}
 	}
-	if err := insertDoc(); err != nil {
-		r.Finding(fmt.Sprintf("%s: InsertDocuments after truncation fails: %v", desc, err))
-		docs--
+	if _, err := w.db.DeleteDocuments(ctx, "admin", &protomodel.DeleteDocumentsRequest{Query: &protomodel.Query{CollectionName: "coll1", Limit: 1000}}); err != nil {
+		w.bad("after restart", "DeleteDocuments(coll1) fails: %v", err)
 	}
-	// restart
-	if err := db.Close(); err != nil {
-		r.Finding(fmt.Sprintf("%s: database does not close after truncation: %v", desc, err))
-		return nil
+	w.rows1, w.rows2, w.rows3, w.fives, w.docs = 0, 0, 0, 0, 0
+	w.base = 100 // primary keys deleted before the second cut are not reused here (see wedge below)
+	if ok, err := cycle("second cycle"); !ok || err != nil {
+		return ok, err
 	}
-	closed = true
-	db, err = database.OpenDB("db1", nil, dbOptions(dir, maxio, fsz), quiet)
-	if err != nil {
-		r.Finding(fmt.Sprintf("%s: database does not open after truncation: %v", desc, err))
-		return nil
-	}
-	closed = false
-	check("after restart")
-	if err := insertRow(); err != nil {
-		r.Finding(fmt.Sprintf("%s: INSERT after truncation and restart fails: %v", desc, err))
-		rows--
-	}
-	if err := exec("CREATE TABLE table2 (id INTEGER, PRIMARY KEY id)"); err != nil {
-		r.Finding(fmt.Sprintf("%s: CREATE TABLE after truncation and restart fails: %v", desc, err))
-	}
-	check("after restart and new writes")
-	_ = store.ErrTxNotFound
-	return nil
+	w.wedge()
+	return true, nil
 }
